@@ -105,7 +105,10 @@ pub fn tree(plant: Plant, who: bool, late: bool) -> N {
     // `who` moves at "top", then `other` at "top2" (not seeing that move), then the block
     let left = leaf_block("x", first, 1.0);
     let right = leaf_block("y", late, 2.0);
-    p(pn(who), "top", vec![("x", p(pn(other), "top2", vec![("k", left), ("j", t(0.5))])), ("y", p(pn(other), "top2", vec![("k", right), ("j", t(-0.5))]))])
+    // after the shared chance infoset "cz" has been revisited, two NEW chance infosets are registered (one
+    // anonymous, one labelled): the indices handed out must still be dense
+    let late = c(None, vec![(1.0, c(Some("late"), vec![(1.0, t(1.0)), (2.0, t(-1.0))])), (1.0, t(0.0))]);
+    p(pn(who), "top", vec![("x", p(pn(other), "top2", vec![("k", left), ("j", t(0.5))])), ("y", p(pn(other), "top2", vec![("k", right), ("j", t(-0.5))])), ("z", late)])
 }
 
 fn expected(plant: Plant) -> Option<&'static str> {
